@@ -43,6 +43,10 @@ func class(res string) string {
 
 func main() {
 	zerolog.SetGlobalLevel(zerolog.Disabled)
+	if len(os.Args) >= 7 && os.Args[1] == "raceworker" {
+		comp.RaceWorker(os.Args[2:])
+		return
+	}
 	if len(os.Args) < 3 {
 		fmt.Fprintln(os.Stderr, "usage: pcharness gen|replay <component> ... ; components:", comp.Names())
 		os.Exit(2)
